@@ -13,7 +13,7 @@ from fractions import Fraction
 
 S = Sym
 PROPERTY = 'C10'
-PROPS_MODULES = ['C10', 'Hpl.Lemmas.Refs']
+PROPS_MODULES = ['C10', 'C10b', 'Hpl.Lemmas.Refs']
 ASSUMPTIONS = ['equivalence judged as refinement on the valuations where both returned parts evaluate without error (as C09)']
 
 B = ('field', ('this',), 'b')
